@@ -35,7 +35,7 @@ AS_TYPES = ["i32", "Option<i32>", "Vec<Inner>", "Inner", "Gen<i32>", "(i32, Stri
 
 
 TWO_FLAT = (("Inner", "Pair<String>"), ("Gen<i32>", "Pair<String>"), ("Inner", "Gen<Inner>"), ("Box<Inner>", "Gen<i32>"))
-PRELUDE = "".join("#[derive(TS)] pub struct Both%d { #[ts(flatten)] pub f: %s, #[ts(flatten)] pub h: %s }\n#[derive(TS)] pub struct BothSpelt%d { %s, %s }\n"
+PRELUDE = "#[derive(TS)] pub struct InnerTwin { pub x: i32, pub y: Option<String> }\n#[derive(TS)] pub struct GenTwin<T> { pub g: T, pub o: Option<T> }\n" + "".join("#[derive(TS)] pub struct Both%d { #[ts(flatten)] pub f: %s, #[ts(flatten)] pub h: %s }\n#[derive(TS)] pub struct BothSpelt%d { %s, %s }\n"
                   % (n_, a_, b_, n_, FLAT[a_], FLAT[b_]) for n_, (a_, b_) in enumerate(TWO_FLAT)) + """pub struct Opaque;
 #[derive(TS)] pub struct Mid1 { #[ts(inline)] pub inner: Inner, pub m: i32 }
 #[derive(TS)] pub struct Mid2 { #[ts(flatten)] pub inner: Inner, pub m: i32 }
@@ -112,6 +112,19 @@ def pres_units():
         both, spelt = "Both%d" % bn, "BothSpelt%d" % bn      # (prelude types)
         pairs.append(("flatten-two-nested", lbl + " / flattened again", unit("pub struct @ { #[ts(flatten)] pub both: %s, pub z: bool }" % both), unit("pub struct @ { %s, %s, pub z: bool }" % (f1, f2))))
         pairs.append(("flatten-two-nested", lbl + " / inlined", unit("pub struct @ { #[ts(inline)] pub both: %s, pub z: bool }" % both), unit("pub struct @ { #[ts(inline)] pub both: %s, pub z: bool }" % spelt)))
+    # the same type under two presentations in ONE item (by name and inlined / flattened, in both orders): each field
+    # keeps its own presentation, and what the item depends on is the union
+    for t, twin, fields in (("Inner", "InnerTwin", FLAT["Inner"]), ("Gen<Inner>", "GenTwin<Inner>", FLAT["Gen<Inner>"])):
+        # (the twin has the same definition under another name: inlined, the two are the same text)
+        pairs.append(("twice", "%s: inlined then by name" % t, unit("pub struct @ { #[ts(inline)] pub b: %s, pub a: %s }" % (t, t)),
+                      unit("pub struct @ { #[ts(inline)] pub b: %s, pub a: %s }" % (twin, t))))
+        pairs.append(("twice", "%s: by name then inlined" % t, unit("pub struct @ { pub b: %s, #[ts(inline)] pub a: %s }" % (t, t)),
+                      unit("pub struct @ { pub b: %s, #[ts(inline)] pub a: %s }" % (t, twin))))
+        if fields:
+            pairs.append(("twice", "%s: flattened then by name" % t, unit("pub struct @ { #[ts(flatten)] pub b: %s, pub a: Option<%s> }" % (t, t)),
+                          unit("pub struct @ { %s, pub a: Option<%s> }" % (fields, t))))
+            pairs.append(("twice", "%s: by name then flattened" % t, unit("pub struct @ { pub a: Vec<%s>, #[ts(flatten)] pub b: %s }" % (t, t)),
+                          unit("pub struct @ { pub a: Vec<%s>, %s }" % (t, fields))))
     for k, t in enumerate(FLAT_ENUMS):
         units.append(corpus.Unit("XE%d" % k, "pub type XE%d = %s;" % (k, t), [], serde=False))
         pairs.append(("flatten-enum", t, unit("pub struct @ { #[ts(flatten)] pub f: %s, pub tail: String }" % t), ("inter", "XOnlyTail", "XE%d" % k)))
@@ -180,6 +193,18 @@ def run(tier):
                    {"a": a.src, "b": b.src, "error": pc.rejected.get(a.name) or pc.rejected.get(b.name)})
             continue
         groups.append((fam, label, pobs[a.name]["info"], pobs[b.name]["info"], a.src, b.src))
+    # what an item depends on is what its declaration names, whatever the presentations of its fields (TLC, FreeNames)
+    import c03
+    sitems, sunits = [], []
+    for u in punits:
+        info = pobs.get(u.name, {}).get("info")
+        if info and "ok" in info["decl"] and "ok" in info["deps"] and u.src.lstrip().startswith("#[derive(TS)]"):
+            sitems.append((info["decl"]["ok"], sorted({x[0] for x in info["deps"]["ok"]})))
+            sunits.append(u)
+    sbad, sdist, sgen = c03.static_closed(sitems, metatag="c14s")
+    for k_ in sbad:
+        v.fail({"prop": PROP, "family": "dependencies", "case": "an item of the presentation corpus", "tag": "dependencies_differ_from_names_used"},
+               {"source": sunits[k_].src, "decl": sitems[k_][0], "dependencies": sitems[k_][1]})
     # extra declarations the pres corpus refers to
     env2 = dict(env)
     for n in ("XMid1", "XMid2", "XMidFlat", "XE1"):
